@@ -124,6 +124,12 @@ func (e *Engine) VerifyFunc(con *Contract, workdir string, timeoutS int, all boo
 	u := &Unit{Key: key, Con: con, Fn: fn, Spec: ps}
 	x := e.newExec(u, ps.Mode)
 	res.World = x.w
+	for _, c := range con.AtCalls {
+		if fn != nil && len(e.callSitePositions(fn, c.Site)) == 0 {
+			res.Unsupported = fmt.Sprintf("atcall clause [%s]: no call site of %s matches %q (a clause that binds nowhere would be vacuous)", c.Label, key, c.Site)
+			return res
+		}
+	}
 	if con.ImplicitOnly != nil {
 		var ks []string
 		for k := range con.ImplicitOnly {
@@ -394,9 +400,26 @@ func (e *Engine) solveUnit(w *World, res *UnitResult, workdir string, timeoutS i
 			defer wg.Done()
 			t := timeoutS
 			var r solveResult
+			if len(j.obls) > 0 && e.knownOpen[j.obls[0].Name] {
+				// listed open finding: one short attempt at the instantiated query is enough to
+				// notice that it has started to hold; otherwise it is reported as the known finding
+				r = solve(j.script, j.file, 3, false, []string{"z3-new"})
+				for _, o := range j.obls {
+					o.Status, o.Solver, o.TimeS = r.status, r.solver, r.secs
+					if r.status != "unsat" {
+						o.Model = r.out
+					}
+				}
+				return
+			}
 			if j.qf != "" {
 				// stage 0: ground premises only, one solver, short budget
-				r = solve(j.qf, strings.TrimSuffix(j.file, ".smt2")+"_qf.smt2", 3, false, []string{"z3-new"})
+				if all {
+					// thorough: every solver on the ground query, answers must not disagree
+					r = solve(j.qf, strings.TrimSuffix(j.file, ".smt2")+"_qf.smt2", 5, true, nil)
+				} else {
+					r = solve(j.qf, strings.TrimSuffix(j.file, ".smt2")+"_qf.smt2", 3, false, []string{"z3-new"})
+				}
 				if r.status != "unsat" {
 					r = solveResult{status: "unknown"}
 				}
@@ -419,6 +442,22 @@ func (e *Engine) solveUnit(w *World, res *UnitResult, workdir string, timeoutS i
 				if r2.status != "unknown" {
 					r2.secs += r.secs
 					r = r2
+				}
+			}
+			if r.status == "unknown" && !j.vac {
+				// no answer within the budget: before this is reported as undecided (or, for an
+				// obligation discharged on the pinned tree, as a violation) give the instantiated
+				// query a much longer budget - a loaded machine must not turn into an alarm
+				r4 := solve(j.script, strings.TrimSuffix(j.file, ".smt2")+"_retry.smt2", t*6, false, nil)
+				if r4.status == "unsat" {
+					r4.secs += r.secs
+					r = r4
+				} else if j.rich != "" {
+					r5 := solve(j.rich, strings.TrimSuffix(j.file, ".smt2")+"_rich_retry.smt2", t*6, false, nil)
+					if r5.status == "unsat" {
+						r5.secs += r.secs
+						r = r5
+					}
 				}
 			}
 			for _, o := range j.obls {
